@@ -1374,9 +1374,9 @@ def impl_sys(m, script) -> Dict[str, Any]:
             pending = len(ex.pending)
             closed = sorted(k for k, p in protos.items() if p.transport.is_closing())
             final_cfg = driver.state.config_version
-            sh = events[0]["props"].get("sh") if events else None
+            setup_id = driver.state.setup_id
     return {"events": events, "reqs": reqs, "final": final, "model_steps": model_steps, "pending": pending,
-            "closed": closed, "dropped": dropped, "final_cfg": final_cfg, "sh": sh, "app_unpairs": app_unpairs,
+            "closed": closed, "dropped": dropped, "final_cfg": final_cfg, "setup_id": setup_id, "app_unpairs": app_unpairs,
             "ident": ident}
 
 
@@ -1467,6 +1467,50 @@ def oracle_sys(ctx: Ctx, script, got):
                      f"{len(got['final'])} controllers are paired", rep)
 
 
+# ----------------------------------------------------------------------------- stream 8: specification-side definitions
+
+
+def gen_spec_cases(ctx: Ctx, labels: List[Any], uris: List[str]) -> List[Dict[str, Any]]:
+    """Labels and URIs on which the Lean-side validity predicates / reference decoder (the definitions
+    the theorems are stated with) are compared with the independent Python validators: what the code
+    really produced, plus perturbations on both sides of every rule."""
+    rng = ctx.rng
+    cases = []
+    fixed = ["", " ", "-", "a", "a" * 63, "a" * 64, "é" * 31 + "a", "é" * 31 + "ab", "é" * 32, "\U0001f600" * 15 + "abc",
+             "\U0001f600" * 16, " a", "a ", "-a", "a-", "a b", "a_b", "a.b", "A-b-9", "日本", "aé"]
+    for x in fixed:
+        cases.append({"inst": x, "host": x, "uri": "X-HM://001408XXEABCD"})
+    pert = [lambda x: " " + x, lambda x: x + " ", lambda x: "-" + x, lambda x: x + "-", lambda x: x + "x" * (64 - len(x)),
+            lambda x: x + "x" * (63 - len(x)), lambda x: x[:3] + "é" + x[3:], lambda x: x[:2] + "_" + x[2:],
+            lambda x: x.replace(" ", "", 1), lambda x: x]
+    for inst, host in labels[: ctx.n(300, 3000)]:
+        f = rng.choice(pert)
+        g = rng.choice(pert)
+        cases.append({"inst": f(inst), "host": g(host), "uri": "X-HM://001408XXEABCD"})
+    for u in uris[: ctx.n(300, 3000)]:
+        k = rng.random()
+        if k < 0.5:
+            v = u
+        elif k < 0.8:  # another digit somewhere behind the two leading ones
+            i = rng.randrange(9, 16)
+            v = u[:i] + rng.choice("0123456789ABCDEFGHIJKLMNOPQRSTUVWXYZ") + u[i + 1:]
+        else:  # not a base-36 digit
+            i = rng.randrange(7, 16)
+            v = u[:i] + rng.choice("abz!-_ é") + u[i + 1:]
+        cases.append({"inst": "a", "host": "a", "uri": v})
+    cases.append({"inst": "a", "host": "a", "uri": "x-hm://001408XXEABCD"})
+    return cases
+
+
+def impl_spec(case) -> Dict[str, Any]:
+    try:
+        d = refxhm.decode(case["uri"])
+    except refxhm.XhmError:
+        d = None
+    return {"inst_ok": dnslabel.instance_label_problem(case["inst"]) is None,
+            "host_ok": dnslabel.host_label_problem(case["host"]) is None, "xhm": d}
+
+
 # ----------------------------------------------------------------------------- constants fixed by the model
 
 
@@ -1554,6 +1598,8 @@ def run(ctx: Ctx):
             "C18_names_legacy_counterexample about these"
         )
     names_op = "names" if repaired else "names_legacy"
+    real_labels: List[Any] = []
+    real_uris: List[str] = []
     macs = [MAC, "00:00:00:Ab:cD:EF"] + [gen_mac(rng) for _ in range(6)]
     for k, name in enumerate(gen_names(ctx)):
         mac = MAC if k < len(BOUNDARY_NAMES) else macs[k % len(macs)]
@@ -1567,6 +1613,8 @@ def run(ctx: Ctx):
         else:
             impl.append({k: got.get(k) for k in ("inst", "host", "vn")})
             post.append(("names", {"name": name[:80], "len": len(name)}, lambda a: {k: a.get(k) for k in ("inst", "host", "vn")}))
+            if got.get("inst") is not None and got.get("host") is not None and k % 7 == 0:
+                real_labels.append((got["inst"], got["host"]))
         changed = "exc" in got or got["vn"] != name
         st.case(["n", _cps(name)], changed)
         st.hit("op", "names")
@@ -1599,7 +1647,7 @@ def run(ctx: Ctx):
             continue
         oracle_txt(ctx, case, got)
         lines.append({"layer": "advert", "op": "advert", "name": _cps(case["name"]), "category": case["category"],
-                      "mac": case["mac"], "cfg": case["cfg"], "paired": case["npaired"] > 0, "sh": got["props"].get("sh")})
+                      "mac": case["mac"], "cfg": case["cfg"], "paired": case["npaired"] > 0, "setup_id": case["setup_id"]})
         impl.append(got["props"])
         post.append(("txt", case, lambda a: dict(a.get("ok", []))))
         st.case(["t", case], True)
@@ -1631,6 +1679,31 @@ def run(ctx: Ctx):
         st.case(["x", case], True)
         st.hit("op", "xhm")
         st.hit("outcome", "xhm-ok" if "ok" in got else "xhm-raises")
+        if "ok" in got:
+            real_uris.append(got["ok"])
+
+    # --- the specification-side definitions against the independent validators
+    for case in gen_spec_cases(ctx, real_labels, real_uris):
+        got = impl_spec(case)
+        lines.append({"layer": "advert", "op": "spec", "inst": _cps(case["inst"]), "host": _cps(case["host"]), "uri": case["uri"]})
+        impl.append(got)
+        post.append(("spec", case, lambda a: a))
+        st.case(["sp", case], not (got["inst_ok"] and got["host_ok"]) or got["xhm"] is None)
+        st.hit("op", "spec")
+        st.hit("outcome", "spec-inst-" + ("valid" if got["inst_ok"] else "invalid"))
+        st.hit("outcome", "spec-host-" + ("valid" if got["host_ok"] else "invalid"))
+        st.hit("outcome", "spec-xhm-" + ("decodes" if got["xhm"] is not None else "rejected"))
+
+    # --- generated identities satisfy the hypotheses of the label and setup-payload theorems
+    import pyhap.util as putil
+
+    for _ in range(ctx.n(150, 2000)):
+        mac, pin = putil.generate_mac(), putil.generate_pincode().decode("ascii")
+        lines.append({"layer": "advert", "op": "ident", "mac": mac, "pin": pin})
+        impl.append({"mac_ok": True, "pin_ok": True, "code": int(pin.replace("-", ""), 10)})
+        post.append(("ident-hypotheses", {"mac": mac, "pin": pin}, lambda a: a))
+        st.case(["id", mac, pin], True)
+        st.hit("op", "ident")
 
     # --- restart pairs
     n_restart = ctx.n(80, 1000)
@@ -1714,7 +1787,7 @@ def run(ctx: Ctx):
         lines.append({"layer": "advert", "op": "sys", "paired": script["paired"], "steps": got["model_steps"],
                       "sessions": [[int(k), v] for k, v in script["conns"].items() if v is not None],
                       "name": _cps(ident["name"]), "category": ident["category"], "mac": MAC, "cfg": ident["cfg0"],
-                      "sh": got["sh"] or ""})
+                      "setup_id": got["setup_id"]})
         impl.append(canon_sys_impl(got))
         post.append(("sys", script, canon_sys_model))
         changing = [r for r in got["reqs"] if r["m5ok"] or ((r["before"] == 0) != (r["after"] == 0))]
